@@ -133,6 +133,20 @@ class Binding:
         return ev, left
 
 
+def safe_project(b, w):
+    """the binding's projection; when the code no longer has the variables it reads (a refactoring renamed or removed them), a
+    generic one - values, cycle counts, end flags, message payloads per channel - so that a departure is reported, not a crash"""
+    try:
+        return b.project(w)
+    except (AttributeError, KeyError, TypeError, IndexError) as e:
+        from .simrt import payload
+        return {"_unprojectable": "%s: %s" % (type(e).__name__, str(e)[:120]), "values": w.values(),
+                "cyc": {n: int(getattr(c, "cycle_count", 0) or 0) for n, c in w.comps.items()}, "fin": dict(w.fin),
+                "started": sorted(n for n in w.comps if w.started[n]),
+                "chan": {"%s>%s" % k: [payload(m) for _, m in q] for k, q in w.chan.items() if q},
+                "reinj": {k: [payload(m) for _, _, m in q] for k, q in w.reinj.items() if q}}
+
+
 def judge_real(worlds, props, k):
     """AlgoMon verdicts of real executions (list of (tag, World)) -> {tag: verdict}"""
     recs = [AT.trace_record(i, w, props, k=k) for i, (_, w) in enumerate(worlds)]
@@ -145,7 +159,15 @@ def _replay_worker(args):
     b, inst, consts, edges, props, label, max_paths, sd = args
     g = RP.Graph(edges)
     w0 = b.world(inst, consts, 1)
-    paths = g.cover(b.project(w0), max_len=80)
+    try:
+        paths = g.cover(safe_project(b, w0), max_len=80)
+    except MachineryError:
+        # the real computations do not even start in the model's initial state (or cannot be projected): one departure, at step 0
+        w = b.world(inst, consts, 1)
+        w.run_random(random.Random(1), max_steps=2000)
+        return 0, 0, ["%s: the initial state of the real computations is not the model's (%s)" % (
+            label, json.dumps(safe_project(b, w0), sort_keys=True, default=str)[:200])], \
+            [{"label": label, "path": [], "then": 1, "rec": AT.trace_record(0, w, props, k=inst.get("stop", consts.get("StopCycle", 0)))}], g.nedges
     if max_paths and len(paths) > max_paths:
         random.Random(sd).shuffle(paths)
         paths = paths[:max_paths]
@@ -168,7 +190,7 @@ def _replay_worker(args):
             if why is None and left:
                 why = "the code did not make the draw the model makes"
             if why is None:
-                d = RP.first_diff(exp, b.project(w))
+                d = RP.first_diff(exp, safe_project(b, w))
                 if d:
                     why = "local state differs from %s at %s (expected vs real)" % (b.module, d)
             if why:
@@ -199,6 +221,13 @@ def instrument(w):
     return w
 
 
+def _pairs(b, w):
+    try:
+        return b.pairs(w)
+    except Exception:
+        return []
+
+
 def hist_record(b, w, inst, stop, rid, exc=""):
     stop = inst.get("stop", stop)
     vs = [n for n in w.comps if hasattr(w.comps[n], "current_value")]
@@ -206,7 +235,7 @@ def hist_record(b, w, inst, stop, rid, exc=""):
             "hist": {n: list(w.hist.get(n, [])) for n in vs}, "idle": {n: max(1, w.vidx(n, w.comps[n].current_value)) for n in vs},
             "val": {n: w.vidx(n, w.comps[n].current_value) for n in vs},
             "cyc": {n: int(getattr(w.comps[n], "cycle_count", 0) or 0) for n in vs}, "fin": {n: bool(w.fin[n]) for n in vs},
-            "quiet": bool(w.quiet()), "allstarted": all(w.started.values()), "exc": exc, "pairs": b.pairs(w), "bestresp": bool(b.best_response)}
+            "quiet": bool(w.quiet()), "allstarted": all(w.started.values()), "exc": exc, "pairs": _pairs(b, w), "bestresp": bool(b.best_response)}
 
 
 def explore_real(args):
@@ -236,7 +265,7 @@ def explore_real(args):
         return w
 
     def key(w, exc):
-        return json.dumps([b.project(w), w.hist, exc], sort_keys=True, default=str)
+        return json.dumps([safe_project(b, w), w.hist, exc], sort_keys=True, default=str)
     w = rerun([])
     seen = {key(w, "")}
     recs = {}
@@ -416,7 +445,11 @@ def run_model(v, b, insts, consts, invariants, clauses, props, edges_for=lambda 
         extra = []
         for ii, inst in enumerate(list(seen_inst.values())[:6]):
             for sc in (inst.get("stop", consts.get("StopCycle", 3)), 2 * inst.get("stop", consts.get("StopCycle", 3)) + 2):
-                params = dict(b.params(consts, dict(inst, stop=sc)), stop_cycle=sc)
+                params = dict(b.params(consts, dict(inst, stop=sc)))
+                if "stop_cycle" in params:
+                    params["stop_cycle"] = sc
+                elif sc != inst.get("stop", consts.get("StopCycle", 3)):
+                    continue          # (an algorithm without stop_cycle: one round of extra schedules is enough)
                 for si in range(intensify):
                     w = AT.run_one(inst, b.algo, params, 7000 + ii * 1000 + si, policy=AT.POLICIES[si % 4], max_steps=4000)
                     extra.append({"label": "intensified", "path": [], "then": 7000 + ii * 1000 + si, "inst": inst, "params": params,
